@@ -99,6 +99,32 @@ claimed["C11"] = (
 ENGINE["C11"] = "coq-dispatch"
 claimed["C10"] = ("Theorems (Coq, closed under the global context) about the interleaving model Conc/AtomicLTS.v, for every number of threads, all finite programs over create / delete / is_alive / lazy push and every schedule (an arbitrary list of thread indices), from any allocator state R-related to a lifecycle state: handles returned to all threads have pairwise distinct indices and differ from every handle alive at the start; a returned handle is alive in every later state of the phase; a deletion request for a handle alive at the start or returned earlier passes the is_alive check, returns Ok and its index stays in killed; no step panics; when all threads have finished the shared state equals (up to the tree shape of the two sets) the state reached by the faithful sequential functions a_alloc_atomic / a_kill_atomic run in linearisation order, every thread received exactly the results that sequential run returns (linearisability), the state is R-related to the lifecycle state reached by the same creations and deferred deletions (so C01/C02/C17 take over at maintain), and the lazy queue is an interleaving of the threads' pushes (each once, program order kept). Tie: the real code runs in lock step under the same schedules through yield points between its atomic steps (hooks/c10_yield.patch); per-thread results, the allocator dump before and after maintain, the entities join and the run order of the queued actions must equal the extracted model's, and the extracted predicate c10_ok must hold on the implementation's transcript. Schedules are enumerated by the extracted model itself: every schedule of 2 threads x 1 op at full granularity, every schedule (up to the position of steps reading phase-immutable data) of 2x2 and 3x1 (thorough: full op alphabet, 3x2 with at most one creation) from four initial states, plus random programs and schedules (thorough: up to 8 threads x 6 ops) and a stress run on real threads." + " Partial: sequentially consistent interleavings only (Relaxed reorderings, spurious compare_exchange_weak failures and the multi-word updates inside hibitset's AtomicBitSet / crossbeam's queue are outside the model; a stress run on real threads samples them); the post-maintain alive-set equation is evaluated per case by the extracted checker, the theorems hand the final state to the sequential development.", "5.C10")
 ENGINE["C10"] = "coq-conc"
+claimed["C14"] = (
+    "Theorems (Coq, closed under the global context) about the model of specs::saveload (SerializeComponents, "
+    "DeserializeComponents, MarkerAllocator, ConvertSaveload for entity-carrying components), for every source world "
+    "satisfying the marker invariant, any number of entities and any reference graph: the serialised data has one record "
+    "per live marked entity with distinct ids and each slot is the conversion of the component with entity fields replaced "
+    "by marker ids; serialize panics only on a reference to an unmarked or dead entity; deserialising any permutation of "
+    "the data into an empty world yields a world in which 'same marker id' is a bijection between marked source entities "
+    "and target entities, component presence agrees, plain values are equal and references point to the counterpart "
+    "(forward references included); serialize_recursive marks exactly the reference closure of the initially marked "
+    "entities, and its data round-trips the same way; more fuel never changes a result. Tie: histories over two worlds "
+    "(create, insert with references, mark, delete, maintain, serialise with JSON and RON, deserialise into the other or the "
+    "same world) run on the real code with SimpleMarker and UuidMarker; every output, the component tables and the "
+    "allocator state must equal the extracted model's. Partial: JSON/RON bytes are parsed back with serde and compared as "
+    "data; UuidMarker's random allocation is covered through explicit ids.", "5.C14")
+ENGINE["C14"] = "coq-saveload"
+claimed["C15"] = (
+    "Theorems (Coq, closed under the global context): an invariant (mapping agrees with live holders, entries pointing at "
+    "live entities point at the holder, counter above every id, storages hold only not-dead entities) holds after every "
+    "history of create / insert / remove / mark / mark-with-id (fresh) / delete / deferred delete / maintain / "
+    "allocator.maintain / serialise / deserialise of arbitrary data; hence no two live entities carry the same marker id, "
+    "mark of a marked entity returns the existing marker and changes nothing, a load updates holders in place, creates an "
+    "entity only for an id nobody holds, gives the holder exactly the slots of the last record with its id, removes the "
+    "slots recorded absent, leaves other entities alone, a repeated load creates nothing, a stale mapping entry is never "
+    "trusted. Machine bound: marker ids below 2^64-1; the boundary is a known finding (u64 wrap of the counter in builds "
+    "without overflow checks), witnessed in Coq and reproduced on the real code. Tie as C14.", "5.C15")
+ENGINE["C15"] = "coq-saveload"
 REASONS = {}
 
 checks = []
@@ -121,6 +147,8 @@ m = {
                  "kind_free_text": "Coq interleaving model of the allocator's atomic paths + lock-step executor over yield hooks"},
                 {"name": "coq-dispatch", "path": "coq/theories/Dispatch", "serves_properties": ["C11"],
                  "kind_free_text": "Coq model of shred's staging and borrow flags + instrumented real dispatch"},
+                {"name": "coq-saveload", "path": "coq/theories/SaveLoad", "serves_properties": ["C14", "C15"],
+                 "kind_free_text": "Coq model of specs::saveload (markers, serialise, deserialise) + two-world Rust executor"},
                 {"name": "coq-derive", "path": "coq/theories/SaveLoad", "serves_properties": ["C18"],
                  "kind_free_text": "Coq model of the derive macros' output + generated Rust crates carrying the real derives"},
                 {"name": "coq-world", "path": "coq/theories", "serves_properties": sorted(p for p in claimed if p not in ENGINE),
